@@ -68,7 +68,7 @@ def run_shard(args):
                 r.outcomes['FAIL'] += 1
                 seen = set()
                 for rel, got, want in fails:
-                    sig = '%s · %s' % (cfg, R.norm_relation(rel))
+                    sig = '%s%s · %s' % (cfg, '' if mode == 'exec' else '/' + mode, R.norm_relation(rel))
                     if sig not in seen:
                         seen.add(sig)
                         r.fails.append(C.Fail(PROP, sig, 'c12', text, {'relation': rel, 'observed': got}, {'expected': want}))
@@ -106,18 +106,19 @@ def run(tier, seed):
 
 def replay(path):
     case = json.load(open(path))['case']
-    cfg = case['signature'].split(' · ')[0]
+    head = case['signature'].split(' · ')[0]
+    cfg, _, mode = head.partition('/')
     text = case['input']
     outs = []
     for _ in range(2):
-        obs = C.run_worker(['c12\t%s\ttrees' % C.hx(text)], cfg=cfg if cfg in CONFIGS else 'default')[0]
+        obs = C.run_worker(['c12\t%s\ttrees%s' % (C.hx(text), '\t' + mode if mode else '')], cfg=cfg if cfg in CONFIGS else 'default')[0]
         outs.append(obs)
     if json.dumps(outs[0], sort_keys=True) != json.dumps(outs[1], sort_keys=True):
         raise C.Machinery('replay is not deterministic')
     obs = outs[0]
-    sigs = ['%s · %s' % (cfg, R.norm_relation(x[0])) for x in obs.get('fail', [])]
+    sigs = ['%s · %s' % (head, R.norm_relation(x[0])) for x in obs.get('fail', [])]
     if 'orig' in obs and ref_optimize(obs['orig']) != obs['opt']:
-        sigs.append('%s · constant optimiser differs from the reference transformation' % cfg)
+        sigs.append('%s · constant optimiser differs from the reference transformation' % head)
     print('replay %r: %s' % (text, sigs or 'holds'))
     if case['signature'] in sigs:
         print('VIOLATION property=%s replay=%s' % (PROP, path))
